@@ -7,8 +7,7 @@ TB_REALS = ("Coq 8.16.1 kernel; stdlib axioms of the classical reals as printed 
             "(ClassicalDedekindReals.sig_forall_dec, sig_not_dec, FunctionalExtensionality.functional_extensionality_dep); "
             "theorems are over ideal reals, binary64 rounding is not modelled; ")
 
-CHECKS = {
- "C15": dict(
+CHECKS_C15 = dict(
     level="proof",
     text="18 theorems over the reals about the operator definitions in coq/theories/Prox.v (strong minimality => argmin and uniqueness, "
          "subgradient form, step = out - in, inactive set <=> locally identity shift, multiplier clamp), for all inputs; the same Gallina "
@@ -17,8 +16,8 @@ CHECKS = {
     design="4/C15",
     note=TB_REALS + "hand-written model tied by correspondence (tolerance 2^-36, discrete outputs equal); infinite box sides modelled as None; "
          "nuclear norm: no theorem (Eigen BDCSVD is an oracle), only the optimality condition is checked on outputs; the complex-l1 operator did not compile before fix 5a3d83895.",
-    technique="Coq proof over R of the executable model + differential correspondence at binary64 + optimality-condition oracle"),
- "C06": dict(
+    technique="Coq proof over R of the executable model + differential correspondence at binary64 + optimality-condition oracle")
+CHECKS_C06 = dict(
     level="proof",
     text="The status chain is TRANSLATED from check_all_stop_conditions (panoc-helpers.tpp and the PANOC-OCP copy) into Gallina on every run; "
          "theorems about the generated functions: Converged iff eps<=tol, tolerance wins over every limit, MaxIter only with k=max_iter, NotFinite only non-finite, "
@@ -28,7 +27,84 @@ CHECKS = {
     design="4/C06",
     note=TB_REALS + "stdlib FloatAxioms (leb_spec, eqb_spec, ltb_spec, abs_spec, Prim2SF...) for the binary64 theorem; translator translate/gen_stopchain.py (restricted grammar; out-of-grammar is reported); "
          "criteria: hand model tied by correspondence; clocks are inputs; solver loops abstracted to the chain-evaluate/return/k++ skeleton (validated on runs).",
-    technique="Coq proofs over a model regenerated from the C++ by a translator + hand kernels with differential correspondence + run oracles"),
+    technique="Coq proofs over a model regenerated from the C++ by a translator + hand kernels with differential correspondence + run oracles")
+
+def C(level, text, design, note, technique):
+    return dict(level=level, text=text, design=design, note=note, technique=technique)
+
+CORR = "hand-written Gallina model tied to the code by a correspondence check (the same definitions run at binary64 inside coqc on the inputs the C++ ran on; discrete outputs equal, doubles within 2^-36); "
+
+CHECKS = {
+ "C03": C("proof",
+    "Theorems over R about the exit-block / multiplier kernels (SolverKernels.v): x written back is the projected step hence in C; err_z = g - Pi_D(g + y/Sigma); y = y_in + Sigma e; multiplier signs and complementarity; "
+    "overwrite policy (Converged, Interrupted or always_overwrite) and bit-for-bit no-overwrite. Tied to PANOC/ZeroFPR/PANTR/FISTA by teacher-forced correspondence on the real runs (exit block compared exactly) and by an oracle recomputing the relations from g and the boxes for every exit status, budget 0/1/.., both always_overwrite values, NaN, plateau, stop scenarios.",
+    "4/C03", TB_REALS + CORR + "box membership over doubles checked with 4 ulp slack; finite-x clause checked for finite-valued user functions; PANOC-OCP under C13, ALM under C01/C07.",
+    "Coq proofs over R of executable kernels + one-step correspondence on solver runs + relation oracle"),
+ "C04": C("proof",
+    "23 theorems over R about AugLag.v (the default compositions of type-erased-problem.tpp selected by an arbitrary provides-mask, with a call log): every evaluation equals the closed form for EVERY mask, scalar-Sigma path = vector path, m=0 shortcuts, "
+    "only provided members are called, Hessian-product availability, (y_hat-y)/Sigma identity, multiplier signs, 1-D penalty derivative and derivative of psi along any line. Correspondence: all 128 masks x 5 routes (direct, ProblemWithCounters, FunctionalProblem...) at binary64; oracle: closed forms from f, grad f, g, Jg and finite differences.",
+    "4/C04", TB_REALS + CORR + "optional members are assumed equal to their closed forms when supplied (provider obligation); CasADi and C-ABI loaders not exercised here (C-ABI under C20); multivariate chain rule reduced to line derivatives.",
+    "Coq proofs for all provider masks + differential correspondence + closed-form / finite-difference oracle"),
+ "C05": C("proof",
+    "Theorems over R for arbitrary psi, grad psi and direction vectors: leaving the line search with tau>0 IS the sufficient decrease with the strictness factor; QUB at the reported iterate gives envelope descent by (1-gamma L)/(2 gamma)|p|^2 for ANY new step size (vector level, any box); trust-region acceptance gives non-increase; any number of backtracking steps keeps gamma L and never increases gamma. "
+    "Correspondence (fbe, prox step, line-search and QUB decisions, halving, candidate point) on callback records of PANOC/ZeroFPR/PANTR runs incl. a scripted direction provider forcing every branch; oracle: the inequalities on consecutive records.",
+    "4/C05", TB_REALS + CORR + "inequalities on doubles checked with 256 eps slack; stated for recompute_last_prox_step_after_stepsize_change=false (the option rewrites the reported iterate); force_linesearch skips the test by construction.",
+    "Coq proofs over R of the decision kernels + teacher-forced correspondence on progress records + inequality oracle"),
+ "C06": CHECKS_C06,
+ "C07": C("proof",
+    "18 theorems over R by induction over ARBITRARY scripts of inner-solver outcomes on a model of the whole ALM operator() (Alm.v): penalties positive, monotone, capped, grow only where the violation persists; multipliers passed in bounded and signed; tolerance non-increasing and >= final; <= max_iter outer iterations; Converged iff; Interrupted immediate; status selection; Sigma_out = last used; statistics are sums. "
+    "Correspondence: whole traces of the real ALMSolver<ScriptedInner> (arguments of every inner call, Stats) vs the model at binary64; oracle on the traces.",
+    "4/C07", TB_REALS + CORR + "NaN paths only by correspondence; clocks bracketed by the driver; preconditions stated in the theorems (initial_tolerance >= tolerance, uniform Sigma for single_penalty_factor, Delta >= 1).",
+    "Coq induction over inner-outcome scripts + trace correspondence against ALMSolver<ScriptedInner>"),
+ "C08": C("proof",
+    "The momentum update, extrapolation, QUB test and backtracking kernels are TRANSLATED from fista.tpp into Gallina on every run; theorems over R about the generated kernels: t(t-1)=t_prev^2, t_k >= (k+2)/2, prox-gradient key inequality (box, l1, box+l1), potential decrease per loop pass incl. backtracking, the full rate F(x_hat_k)-F* <= 2|x0-x*|^2/(gamma_k (k+1)^2) for fixed and backtracked L, and monotone O(1/k) without acceleration. "
+    "Per-iteration correspondence of the loop model at binary64; oracle: the bound at every k on real runs incl. the Nesterov chain.",
+    "4/C08", TB_REALS + "translator translate/gen_C08_fista.py (restricted expression grammar, out-of-grammar reported); convexity and descent lemma are Section hypotheses; hand loop skeleton (m=0) tied by correspondence.",
+    "Translator-generated kernels + Coq rate proof + per-iteration correspondence + rate oracle"),
+ "C09": C("proof",
+    "15 theorems: ring-buffer refinement to a bounded history for ALL op sequences and memories (update, forced update, reset, resize, scale_y; iteration orders), update stored iff documented acceptance test, two-loop recursion = dense BFGS operator of the history (over R), symmetric, secant equation, positive definite under enforced curvature, masked apply = restricted construction, scale_y = dense rescale; refuted: apply after apply_masked (known finding). "
+    "Correspondence on whole op sequences through the public API; oracle: exact-rational dense BFGS.",
+    "4/C09", TB_REALS + CORR + "std::pow is a Section variable; NaN marks as None; known finding C09:apply-after-masked-uses-overwritten-rho.",
+    "Coq refinement + operator algebra proofs + op-sequence correspondence + exact-rational oracle"),
+ "C10": C("proof",
+    "20 theorems: ring-index invariant and iterator enumeration for every add/remove/reset history within capacity (nat), Givens formulas give a rotation, Q triu(R) = A preserved by add (any number of reorthogonalisation passes), remove (Givens sweep over the rotated R) and scale_R for all histories, Anderson coefficients sum to 1 and the output is the affine combination. PARTIAL: orthonormality of Q, least-squares optimality of solve_col and the Anderson window content are checked numerically by the oracle only. "
+    "Correspondence: the model threads its own state over whole histories at binary64.",
+    "4/C10", TB_REALS + CORR + "partial: orthonormality / least squares / window refinement not proved (oracle: |QtQ-I|, normal equations, thresholded pivots); reorthogonalisation loop under fuel.",
+    "Coq ring refinement + QR algebra + whole-history correspondence + numeric oracle"),
+ "C11": C("proof",
+    "19 theorems over R for ANY symmetric linear operator B (possibly indefinite), all g, Delta>0: termination, CG invariant, |s| <= Delta, returned value = model value, <= 0, <= every point of the steepest-descent ray hence <= Cauchy point, boundary exits on the sphere, interior exit reason, roots bracket zero, zero gradient gives the zero step, Newton-TR active components = forward-backward step and value = combined decrease. "
+    "Correspondence at binary64 incl. Hessian-product counts; oracle with an independent Cauchy value.",
+    "4/C11", TB_REALS + CORR + "finite_diff path of NewtonTR not covered; known finding C11:alpha-overflow-nan-step (deliberate NaN signalling on overflow of alpha).",
+    "Coq proofs over R for arbitrary symmetric operators + correspondence + Cauchy oracle"),
+ "C12": C("proof",
+    "12 theorems: index sets J/K sorted and partition [0,n) for every mask; storage and qr layouts tile their buffers for all dimensions; forward cost = sum of stage costs + penalties along the roll-out for arbitrary f,h,l,c; backward sweep = transposed linearisation (adjoint identity for every perturbation, by induction on N, incl. penalty terms); Riccati factor+solve satisfies the KKT system of the masked equality-constrained QP for every horizon and mask (PARTIAL: stationarity, not minimality). "
+    "Correspondence (teacher-forced problem functions) and oracle: independent roll-out, complex-step gradient, dense KKT solve, both factorisations, all 2^nu masks.",
+    "4/C12", TB_REALS + CORR + "chain rule and Eigen LDLT/LU are parameters (lsolve hypothesis); Riccati minimiser statement not proved (needs positive-definiteness bookkeeping).",
+    "Coq proofs (layout, index sets, adjoint, Riccati KKT) + correspondence + independent numeric oracle"),
+ "C14": C("proof",
+    "13 axiom-free theorems over a transcription of all 9 SparsityConverter specialisations: a successful conversion preserves the dense matrix entry by entry for all shapes (incl. 0xN), patterns and value vectors; dims, symmetry mirroring, first_index and order requests honoured, order tag truthful, invalid inputs rejected. Correspondence over all pairs x index types x requests; oracle: dense reconstruction.",
+    "4/C14", "Coq 8.16.1 kernel, no axioms (closed under the global context); " + CORR + "index widths are tags (overflow not modelled); COO->CSC and CSC sorting throw in this build (macro off) and are modelled as such; duplicates excluded.",
+    "Coq proofs over nat/Z + correspondence + dense-reconstruction oracle"),
+ "C15": CHECKS_C15,
+ "C17": C("proof",
+    "13 axiom-free theorems on a byte-level model of the stream and the 64-byte chunked reader: for ALL field lengths, row lengths, chunk alignments and comment lengths the reader returns exactly the row spec or a read error (never altered numbers), leaves the stream at the next row, over-long fields are rejected, print->read round trip under stated from_chars/to_chars premises (proved outright for integers). "
+    "Correspondence on the real reader (values, bytes left, stream flags); oracle: bit-exact round trips for double/float/long double, corruptions, alignments.",
+    "4/C17", "Coq 8.16.1 kernel, no axioms; " + CORR + "floating-point from_chars/to_chars (libstdc++) are premises, sampled by the oracle; rows ended by EOF by correspondence only; known finding C17:long-double-subnormal-rejected.",
+    "Coq proofs on a byte-level reader model + correspondence + round-trip oracle"),
+ "C18": C("proof",
+    "Attribute and enum tables are TRANSLATED from structs.ipp / the headers on every run; 33 axiom-free theorems: generic frame theorem (a call changes at most the addressed leaf; rejected options leave the whole nested structure unchanged), prefix filter and used counts, rejection theorems, value reading, durations; finite theorems over the generated tables (every field and enumerator registered, keys unique, bound to the same-named member). Correspondence on every registered key of all exported structs; oracle on the real parser.",
+    "4/C18", "Coq 8.16.1 kernel, no axioms; translator translate/gen_C18_tables.py (g++ -E + header parsing, compiler cross-checks); " + CORR + "decimal-to-double conversion is an oracle; duration rounding validated by correspondence.",
+    "Translator-generated tables + Coq frame/rejection proofs + correspondence + parser oracle"),
+ "C19": C("proof",
+    "PARTIAL. Proved: on the status chain GENERATED from the code a pending stop request never yields Busy; for every observation sequence the loop skeleton returns at the first check that sees the request with Interrupted or a higher-ranked status, and Interrupted only after a request; ALM returns immediately after an Interrupted inner solve; Interrupted overwrites outputs like Converged (C03 relations). "
+    "Explored by exhaustive fault enumeration on fixed problems: stop() from every evaluation index, callback index and direction-provider call for 12 stacks stand-alone and under ALM: status, tail length, outputs, ALM propagation. Not claimed: asynchronous calls from other threads and data-race freedom.",
+    "4/C19", TB_REALS + "asynchrony / data race not expressible in a Gallina model (stated in evidence.assumptions); promptness bound is empirical (largest per-iteration evaluation count of the unstopped run + 8; 2G+8 under ALM).",
+    "Coq proofs on generated chain + loop skeleton, fault enumeration of stop injection points"),
+ "C20": C("proof",
+    "25 axiom-free theorems: shared-counter model for arbitrary histories of new/call/copy/assign/decouple/reset: value read = number of calls through any sharing wrapper since creation or reset, copy shares, decouple separates, reset keeps the wrapper usable; finite theorems over tables TRANSLATED from problem-with-counters.hpp / ocproblem.hpp / dl-problem.cpp: each member counts its own counter, forwards to the same name with the same argument order, requires-clause subject matches, DL forwarders match the C signatures. "
+    "Correspondence on counter histories; translation validation of wrappers and generated C plug-ins against a native reference (every entry point bitwise), provides/supports truth, load failures.",
+    "4/C20", "Coq 8.16.1 kernel, no axioms; translator translate/gen_C20_wrappers.py; wrapper/loader transparency is a differential (translation-validation) claim; timers, dlopen and the C ABI are not modelled; known finding C20:dl-control-problem-lacks-required-members.",
+    "Coq counter refinement + translator-generated forwarding tables + differential validation of wrappers and plug-ins"),
 }
 
 NOT_YET = {}
